@@ -70,6 +70,23 @@ pub fn check_dyn(f: &P, tf: TF, loc: &mut Local) {
             }
         },
     }
+    // the same through the explicit adapter and through the deprecated re-export
+    {
+        use open_hypergraphs::strict::functor::Functor as StrictFunctor;
+        let adapted = dyn_functor::to_dyn_functor(LaxTF(tf));
+        let sf = crate::onvec::build_open(f);
+        loc.trans(2);
+        match catch(|| adapted.map_arrow(&sf)).and_then(|r| decode_open(&r)) {
+            Ok(r) if iso(&r, &expected) => {}
+            other => loc.violation("to_dyn_functor:not-the-substitution", json!({"f": f, "functor": tf, "got": format!("{:?}", other)})),
+        }
+        #[allow(deprecated)]
+        let shim = catch(|| open_hypergraphs::lax::functor::define_map_arrow(&LaxTF(tf), &lf)).and_then(|r| strictify_real(&r));
+        match shim {
+            Ok(r) if iso(&r, &expected) => {}
+            other => loc.violation("deprecated-define_map_arrow:not-the-substitution", json!({"f": f, "functor": tf, "got": format!("{:?}", other)})),
+        }
+    }
     if !f.edges.is_empty() {
         loc.nontrivial_sub();
     }
